@@ -183,7 +183,7 @@ def main() -> None:
             }
         ],
         "checks": checks,
-        "notes": "Static analysis only: no check runs hypercorn, its tests or a solver. Exit 0 = all rule instances discharged (KNOWN-FINDING lines for defects listed in known_findings.json); exit 1 + VIOLATION line = an unlisted violation; exit 2 + ANALYSIS-ERROR = anchor vanished / unsupported construct (never a silent pass).",
+        "notes": "Static analysis only: no check runs hypercorn, its tests or a solver. Exit 0 = all rule instances discharged (KNOWN-FINDING lines for defects listed in known_findings.json); exit 1 + VIOLATION line = an unlisted violation; exit 2 + ANALYSIS-ERROR = anchor vanished / unsupported construct (never a silent pass; violations established before the analysis stopped are still reported with exit 1). Every module is first brought into a canonical form (hcverif/canon.py: behaviour-preserving rewrites that undo routine refactors against the pinned symbol table hcverif/known_symbols.json), so the rules judge what the code does rather than how it is spelt. The thorough tier re-runs the quick analysis and then the checker's own regression corpora on scratch copies: self-test mutants (must fire), the property's seeded breaking changes in seeded/ (must fire) and the behaviour-preserving refactors in neutral/ (must stay silent); corpus results go into the evidence (coverage.selftest / coverage.corpora) and never become a VIOLATION of the property.",
         "not_applicable": na,
     }
     (VERIF / "MANIFEST.json").write_text(json.dumps(manifest, indent=1) + "\n")
